@@ -150,7 +150,8 @@ PROPERTY = Property(
         "writes only retransmissions and gap fills (no ResendRequest), does not touch the inbound counter, the resend "
         "watermark or the delivered trace, and either completes (outbound counter and state restored) or stops half way "
         "with an Exception (state RESENDREQ_HANDLING unless awaiting, outbound counter >= 1 with no journal row at or above it)",
-        "Codec.encode / Journaler.persist_msg / set_seq_num abstract contracts (C05, C13); raw_msg is the frame msg was decoded "
+        "Codec.encode sequence-number contract (proved in C05); Journaler.persist_msg / set_seq_num abstract contracts "
+        "(unchecked: the C13 check of the SQL bodies is not built); raw_msg is the frame msg was decoded "
         "from, so find_seq_no(raw_msg) = int(msg[34])",
         "A-HOOK: application hooks neither touch connection state nor raise; A-IO: transport calls do not raise; A-LOG",
         "the inbound message carries the session's CompIDs and the protocol BeginString (domain of the statement); a tag "
